@@ -134,9 +134,9 @@ def run(tier, seed):
     pinned(chk)
     rng = random.Random(seed * 7919 + 1)
     quick = tier != 'thorough'
-    items, asts = gen_items(rng, 260 if quick else 1200, FEATURES | {'yield', 'end'})
+    items, asts = gen_items(rng, 260 if quick else 700, FEATURES | {'yield', 'end'})
     # targeted families: structured foreach bodies, result-code runs
-    for i in range(40 if quick else 300):
+    for i in range(40 if quick else 120):
         sd = rng.randrange(1 << 30)
         if i % 4 == 3:
             ast, src = genprog.gen_protocol_program(sd)
